@@ -46,7 +46,10 @@ def member_specs(draw, dims=(2, 3), types=("SEG2", "SEG3", "SEG4", "SEG5"), incl
         yaxis = [draw(st.integers(-3, 3)) for _ in range(3)]
         if np.linalg.norm(np.cross(yaxis, d)) < 1e-6:
             yaxis = None
-    return dict(dim=dim, elemType=et, p1=p1, d=d, ne=ne, b=b, h=h, E=E, v=v, timoshenko=tim, yAxis=yaxis)
+    # grade: element lengths made unequal (vertices moved along the member by s -> s + g s (1 - s), the inner nodes of
+    # every element kept equidistant); 0 = the uniform mesh the mesher gives
+    grade = draw(st.sampled_from([0.0, 0.0, -0.5, 0.4]))
+    return dict(dim=dim, elemType=et, p1=p1, d=d, ne=ne, b=b, h=h, E=E, v=v, timoshenko=tim, yAxis=yaxis, grade=grade)
 
 
 def build_member(spec):
@@ -68,8 +71,29 @@ def build_member(spec):
     j = np.cross(k, i)
     beam = Models.Beam.Isotropic(dim, line, sec, spec["E"], spec["v"], yAxis=tuple(y0))
     mesh = Mesher().Mesh_Beams([beam], elemType=ElemType(spec["elemType"]))
+    if spec.get("grade"):
+        mesh = graded(mesh, p1, d, float(spec["grade"]))
     simu = Simulations.Beam(mesh, Models.Beam.BeamStructure([beam]), useTimoshenko=bool(spec["timoshenko"]))
     return simu, simu.mesh, beam, np.array([i, j, k])
+
+
+def graded(mesh, p1, d, g):
+    """the same straight member with unequal element lengths (see member_specs)"""
+    from vlib import gen_mesh as gm
+
+    X = np.asarray(mesh.coord, float)
+    L2 = float(d @ d)
+    s = (X - p1) @ d / L2
+    phi = lambda t: t + g * t * (1.0 - t)  # noqa
+    new = s.copy()
+    for grp in mesh.dict_groupElem.values():
+        if grp.dim != 1:
+            continue
+        conn = np.asarray(grp.connect, int)
+        a, b = s[conn[:, 0]], s[conn[:, 1]]
+        for c in range(conn.shape[1]):
+            new[conn[:, c]] = phi(a) + (s[conn[:, c]] - a) / (b - a) * (phi(b) - phi(a))
+    return gm.rebuild(mesh, p1[None, :] + new[:, None] * d[None, :])
 
 
 def end_nodes(mesh, spec):
